@@ -64,6 +64,8 @@ type Contract struct {
 	Abstract     bool // body not verified (interface / extern)
 	Lemmas       []*Clause
 	Provenance   []string // interface-typed parameters that carry the fidRef they were loaded from
+	GhostInit    []string
+	AllocBound   *Clause
 	Logical      [][2]string // logical (universally quantified) variables of the contract: name, type
 	BridgeEnsures []*Clause // assumed at call sites, not proved against the body (abstraction bridge)
 	Impls        bool     // interface contract: every implementation in /repo is verified against it
@@ -313,6 +315,9 @@ func ParseContracts(file, text, pkg string, out *ContractSet) error {
 			cur.Results = splitTop(rest, ',')
 		case "ghost":
 			cur.Ghost = append(cur.Ghost, rest)
+		case "ghostinit":
+			// ghostinit $a:type = expr, ... : values of the function's own ghost accumulators at entry
+			cur.GhostInit = append(cur.GhostInit, splitTop(rest, ',')...)
 		case "logical":
 			// logical name type, name type : universally quantified over the whole contract
 			for _, d := range splitTop(rest, ',') {
@@ -340,6 +345,9 @@ func ParseContracts(file, text, pkg string, out *ContractSet) error {
 		default:
 			if strings.HasPrefix(word, "safety[") {
 				cur.Safety = parseProps(word[6:])
+			} else if strings.HasPrefix(word, "allocbound[") {
+				// allocbound[props] expr : every make([]T, n) in the function has n <= expr
+				cur.AllocBound = &Clause{Props: parseProps(word[10:]), Text: rest, Where: where, Label: "alloc-bound"}
 			} else {
 				return fmt.Errorf("%s: unknown clause %q", where, s)
 			}
